@@ -32,7 +32,7 @@ ANCHORS = [
     "stereomolgraph.rdmol2graph:RDMol2StereoMolGraph.smg_from_rdmol",
 ]
 REQUIRED_ANCHORS = ANCHORS
-REQUIRED = ["roundtrips", "molgraph_roundtrips", "desc:Tetrahedral", "desc:Tetrahedral+lone-pair", "desc:SquarePlanar", "desc:TrigonalBipyramidal", "desc:Octahedral", "ez_roundtrips", "ez_descriptors", "adjacent_centres", "exports_after_in_place_rewiring"]
+REQUIRED = ["roundtrips", "molgraph_roundtrips", "desc:Tetrahedral", "desc:Tetrahedral+lone-pair", "desc:SquarePlanar", "desc:TrigonalBipyramidal", "desc:Octahedral", "ez_roundtrips", "ez_descriptors", "adjacent_centres", "exports_after_in_place_rewiring", "polynuclear_complexes"]
 CASE_TIMEOUT = 120
 EZ = ["F/C=C/Cl", "F/C=C\\Cl", "C/C=C/C", "C/C=C\\C", "C/C(F)=C(/Cl)C", "CC/C=C/CO", "OC/C=C\\CC", "C/C=C/CC/C=C\\C", "CC(/C=C/C)O", "Cl/C=C/CC(C)C", "C1CC/C=C\\CCC1", "C/C=C(/C)CC", "N/C=C/C", "CS/C=C\\C",
       # double bonds with a lone-pair end (placeholder descriptors), alone and next to an ordinary alkene elsewhere in the molecule
@@ -122,6 +122,26 @@ def gen_cases(ctx):
             rng.shuffle(lig)
             pg["astereo"][0] = (cls, (0, *lig), rng.choice(sem.PARITY_DOMAIN[cls]))
             kind = "complex"
+            if rng.random() < 0.4:
+                # polynuclear: two or three copies of the block, spelled identically (ids shifted), each with the same
+                # or the opposite parity (a racemate / a meso dimer in one graph), optionally linked through ligands
+                d0 = pg["astereo"][0]
+                ncopy = rng.randint(2, 3)
+                for c in range(1, ncopy):
+                    off = c * nn
+                    for k, z in enumerate(els):
+                        pg["atoms"][off + k] = {"atom_type": z}
+                    for k in range(1, nn):
+                        pg["bonds"][frozenset((off, off + k))] = {}
+                    par = d0[2]
+                    if par is not None and sem.CHIRAL[cls] and rng.random() < 0.6:
+                        par = -par
+                    elif rng.random() < 0.3:
+                        par = rng.choice(sem.PARITY_DOMAIN[cls])
+                    pg["astereo"][off] = (cls, tuple(off + a for a in d0[1]), par)
+                    if rng.random() < 0.5:
+                        pg["bonds"][frozenset((off - nn + 1, off + 1))] = {}
+                kind = "complex-polynuclear"
         elif fam == 6 and (i // 8) % 2 == 1:  # random molecule with several centres (molgen)
             from .. import molgen
 
@@ -147,8 +167,13 @@ def gen_cases(ctx):
             yield {"kind": "ez", "smiles": EZ[(i // 8) % len(EZ)], "idfam": idfam, "iseed": rng.randrange(1 << 30), "bo": True}
             continue
         ids = _ids(rng, len(pg["atoms"]), idfam)
+        ordered = kind == "complex-polynuclear" and rng.random() < 0.6
+        if ordered:
+            # built systematically, as from a loop over the metal centres: ascending ids, atoms and bonds added in id
+            # order - the copies are then spelled identically relative to the atom order as well
+            ids = sorted(ids)
         pg = sem.pg_relabel(pg, dict(zip(sorted(pg["atoms"]), ids)))
-        yield {"kind": kind, "pg": pg_to_json(pg), "idfam": idfam, "iseed": rng.randrange(1 << 30), "bo": False}
+        yield {"kind": kind, "pg": pg_to_json(pg), "idfam": idfam, "iseed": rng.randrange(1 << 30), "bo": False, "ordered": ordered}
 
 
 def check_case(ctx, case):
@@ -174,7 +199,12 @@ def check_case(ctx, case):
     else:
         pg = pg_from_json(case["pg"])
     try:
-        g, via = build_case(pg, case.get("bseed", len(pg["atoms"]) * 7919 + len(pg["bonds"])))
+        if case.get("ordered"):
+            from ..snapshot import build
+
+            g, via = build(pg), "direct-ordered"
+        else:
+            g, via = build_case(pg, case.get("bseed", len(pg["atoms"]) * 7919 + len(pg["bonds"])))
     except DerivationWrong as e:
         ctx.violate(f"C13/derived-input-differs/{e.via}", f"deriving the input graph: {e}", case)
         ctx.case()
@@ -186,6 +216,8 @@ def check_case(ctx, case):
     moved = list(pg["atoms"]) != list(range(len(pg["atoms"])))
     ctx.case((sem.canon_key(pg), kind, idfam), (bool(specified) or kind == "ez") and moved)
     nb = sem.pg_neighbors(pg)
+    if kind == "complex-polynuclear":
+        ctx.count("polynuclear_complexes")
     if any(b <= set(specified) for b in pg["bonds"]):
         ctx.count("adjacent_centres")
     fkey = kind
